@@ -412,6 +412,9 @@ pub struct XlsbBook {
     /// (C16: BrtBookView and friends; before fix 889c07c `read_workbook` scanned the payload of records it does not
     /// know as record ids)
     pub workbook_pre: Vec<(u16, Vec<u8>)>,
+    /// extra records `(id, payload)` written in styles.bin between BrtEndFmts and BrtBeginCellXFs (where Excel puts
+    /// fonts, fills, borders and the cell style XFs), framed by the book's framing
+    pub styles_pre: Vec<(u16, Vec<u8>)>,
 }
 
 impl Default for XlsbBook {
@@ -436,6 +439,7 @@ impl XlsbBook {
             vba: None,
             extra_parts: vec![],
             workbook_pre: vec![],
+            styles_pre: vec![],
         }
     }
     pub fn sheet_path(&self, i: usize) -> String {
@@ -445,11 +449,11 @@ impl XlsbBook {
         self.sheets[i].part(&self.framing, i as u64 + 1)
     }
     pub fn workbook_part(&self) -> Vec<u8> {
-        // `read_workbook` consumes the payload only of the records it knows and scans everything else byte by
-        // byte as record ids, so the unknown records written here are all empty and framed minimally.
+        // (before /repo 889c07c `read_workbook` scanned the payload of records it does not know byte by byte as
+        // record ids; since that fix every record may carry a payload and any framing)
         let mut fr = Framer::new(&self.framing, 0x77);
         let mut o = vec![];
-        fr.rec_min(&mut o, 0x0083, &[]); // BrtBeginBook
+        fr.rec(&mut o, 0x0083, &[]); // BrtBeginBook
         let mut p = (self.date1904 as u32).to_le_bytes().to_vec();
         p.extend_from_slice(&0u32.to_le_bytes());
         p.extend_from_slice(&wide_str(""));
@@ -457,7 +461,7 @@ impl XlsbBook {
         for (id, p) in &self.workbook_pre {
             fr.rec(&mut o, *id, p);
         }
-        fr.rec_min(&mut o, 0x008F, &[]); // BrtBeginBundleShs
+        fr.rec(&mut o, 0x008F, &[]); // BrtBeginBundleShs
         for (i, s) in self.sheets.iter().enumerate() {
             let mut p = s.state.to_le_bytes().to_vec();
             p.extend_from_slice(&(i as u32 + 1).to_le_bytes());
@@ -465,10 +469,10 @@ impl XlsbBook {
             p.extend_from_slice(&wide_str(&s.name));
             fr.rec(&mut o, 0x009C, &p); // BrtBundleSh
         }
-        fr.rec_min(&mut o, 0x0090, &[]); // BrtEndBundleShs
+        fr.rec(&mut o, 0x0090, &[]); // BrtEndBundleShs
         if !self.extern_sheets.is_empty() {
-            fr.rec_min(&mut o, 0x0161, &[]); // BrtBeginExternals
-            fr.rec_min(&mut o, 0x0165, &[]); // BrtSupSelf
+            fr.rec(&mut o, 0x0161, &[]); // BrtBeginExternals
+            fr.rec(&mut o, 0x0165, &[]); // BrtSupSelf
             let mut p = (self.extern_sheets.len() as u32).to_le_bytes().to_vec();
             for (a, b) in &self.extern_sheets {
                 p.extend_from_slice(&0u32.to_le_bytes());
@@ -476,7 +480,7 @@ impl XlsbBook {
                 p.extend_from_slice(&b.to_le_bytes());
             }
             fr.rec(&mut o, 0x016A, &p); // BrtExternSheet
-            fr.rec_min(&mut o, 0x0162, &[]); // BrtEndExternals
+            fr.rec(&mut o, 0x0162, &[]); // BrtEndExternals
         }
         for n in &self.names {
             let mut p = 0u32.to_le_bytes().to_vec(); // flags
@@ -489,7 +493,7 @@ impl XlsbBook {
             p.extend_from_slice(&0xFFFF_FFFFu32.to_le_bytes()); // comment: null string
             fr.rec(&mut o, 0x0027, &p); // BrtName
         }
-        fr.rec_min(&mut o, 0x0084, &[]); // BrtEndBook
+        fr.rec(&mut o, 0x0084, &[]); // BrtEndBook
         o
     }
     pub fn workbook_rels(&self) -> String {
@@ -505,17 +509,20 @@ impl XlsbBook {
         s
     }
     pub fn styles_part(&self, xfs: &[u16]) -> Vec<u8> {
-        // same remark as for the workbook part: unknown records are empty and framed minimally
+        // (same remark as for the workbook part: `read_styles` skips unknown records properly since /repo ca1bc47)
         let mut fr = Framer::new(&self.framing, 0x55);
         let mut o = vec![];
-        fr.rec_min(&mut o, 0x0116, &[]); // BrtBeginStyleSheet
+        fr.rec(&mut o, 0x0116, &[]); // BrtBeginStyleSheet
         fr.rec(&mut o, 0x0267, &(self.fmts.len() as u32).to_le_bytes()); // BrtBeginFmts
         for (id, s) in &self.fmts {
             let mut p = id.to_le_bytes().to_vec();
             p.extend_from_slice(&wide_str(s));
             fr.rec(&mut o, 0x002C, &p); // BrtFmt
         }
-        fr.rec_min(&mut o, 0x0268, &[]); // BrtEndFmts
+        fr.rec(&mut o, 0x0268, &[]); // BrtEndFmts
+        for (id, p) in &self.styles_pre {
+            fr.rec(&mut o, *id, p);
+        }
         fr.rec(&mut o, 0x0269, &(xfs.len() as u32).to_le_bytes()); // BrtBeginCellXFs
         for f in xfs {
             let mut p = 0xFFFFu16.to_le_bytes().to_vec(); // ixfeParent
